@@ -693,6 +693,49 @@ pub fn gen_env_and_roots(s: &mut Src, cfg: &GenCfg, n_roots: usize) -> (Env, Vec
         roots[last] = if s.chance(1, 2) { u } else { D::Array(Box::new(u)) };
         return (env, roots);
     }
+    // now and then: two named object types that are mutually recursive, one of which has all the properties of the other
+    // plus some (Entry = {name; parent?: Folder}, Folder = {name; parent?: Folder; items: Entry[]}): the renderer may write
+    // the bigger one as `interface Folder extends Entry { items: Entry[] }`, and the compiler meets the pair in either order
+    if cfg.max_defs >= 2 && !roots.is_empty() && s.chance(1, 14) {
+        let base_at = s.below(2);
+        let derived_at = 1 - base_at;
+        let leaf = |s: &mut Src| match s.below(3) {
+            0 => D::Str,
+            1 => D::Num,
+            _ => D::StrLit("a".into()),
+        };
+        let mut base_props = vec![Prop { key: "a".into(), ty: leaf(s), optional: false }, Prop { key: "c".into(), ty: D::Ref(derived_at), optional: true }];
+        if s.chance(1, 2) {
+            base_props.push(Prop { key: "k".into(), ty: leaf(s), optional: s.chance(1, 3) });
+        }
+        let mut derived_props = base_props.clone();
+        derived_props.push(Prop { key: "b".into(), ty: D::Array(Box::new(D::Ref(base_at))), optional: false });
+        if s.chance(1, 2) {
+            derived_props.push(Prop { key: "0".into(), ty: leaf(s), optional: s.chance(1, 2) });
+        }
+        let mut bodies = vec![D::Never, D::Never];
+        bodies[base_at] = D::Object { props: base_props, index: None };
+        bodies[derived_at] = D::Object { props: derived_props, index: None };
+        env = Env::default();
+        for (i, b) in bodies.into_iter().enumerate() {
+            env.defs.push((DEF_NAMES[i].to_string(), b));
+        }
+        // which of the two the program mentions first
+        let first = s.below(2);
+        if roots.len() >= 2 {
+            for r in roots.iter_mut() {
+                *r = D::Str;
+            }
+            roots[0] = D::Ref(first);
+            roots[1] = if s.chance(1, 2) { D::Ref(1 - first) } else { D::Array(Box::new(D::Ref(1 - first))) };
+        } else {
+            roots[0] = D::Object {
+                props: vec![Prop { key: "a".into(), ty: D::Ref(first), optional: false }, Prop { key: "b".into(), ty: D::Ref(1 - first), optional: s.chance(1, 2) }],
+                index: None,
+            };
+        }
+        return (env, roots);
+    }
     // now and then the same two named object types meet both in a union and in an intersection within one program
     // (shared sub-validators are hoisted by structure: A | B and A & B must not be confused)
     let objs = object_defs(&env);
